@@ -170,6 +170,9 @@ def register(R):
                f'forall(lambda i: implies({SKIP}, fails(result, i)), 0, len(input_iterator.src))'],
       bounded='bounded_pipeline_skip'))
 
+  _sp = importlib.util.spec_from_file_location('mux_common', os.path.join(os.path.dirname(__file__), 'mux_common.py'))
+  _mux_common = importlib.util.module_from_spec(_sp); _sp.loader.exec_module(_mux_common)
+  _mux_common.register(R, [P])          # without error skipping the first error also ends the helper threads
   # (_RangeIterator.__next__ is registered by the C09 contracts for both properties)
 
   R.bounded_checks[P] = [
